@@ -56,8 +56,10 @@ Definition mul64 (a b : N) : fe :=
   let mid := N.lxor (N.lxor (mul32 (N.lxor a0 a1) (N.lxor b0 b1)) lo) hi in
   (N.lxor lo (shlw mid 32), N.lxor hi (N.shiftr mid 32)).
 
-(* polyvalDot(a, b fieldElement) fieldElement; fst/snd = the struct fields .lo/.hi *)
-Definition polyvalDot (a b : fe) : fe :=
+(* polyvalDot(a, b fieldElement) fieldElement, in its two commented halves;
+   fst/snd are the struct fields .lo/.hi.
+   First half: "Karatsuba multiplication. The product of |a| and |b| is stored in |r0| and |r1|" *)
+Definition pv_karatsuba (a b : fe) : fe * fe :=
   let r0 := mul64 (fst a) (fst b) in
   let r1 := mul64 (snd a) (snd b) in
   let mid := mul64 (N.lxor (fst a) (snd a)) (N.lxor (fst b) (snd b)) in
@@ -65,15 +67,16 @@ Definition polyvalDot (a b : fe) : fe :=
   let midlo := N.lxor (fst mid) (N.lxor (fst r0) (fst r1)) in
   let midhi := N.lxor (snd mid) (N.lxor (snd r0) (snd r1)) in
   (* r1.lo ^= mid.hi; r0.hi ^= mid.lo *)
-  let r1lo := N.lxor (fst r1) midhi in
-  let r1hi := snd r1 in
+  ((fst r0, N.lxor (snd r0) midlo), (N.lxor (fst r1) midhi, snd r1)).
+
+(* Second half: "Now we multiply our 256-bit result by x^-128 and reduce" *)
+Definition pv_reduce (r0 r1 : fe) : fe :=
   let r0lo := fst r0 in
-  let r0hi := N.lxor (snd r0) midlo in
   (* r0.hi ^= (r0.lo << 63) ^ (r0.lo << 62) ^ (r0.lo << 57) *)
-  let r0hi := N.lxor r0hi (N.lxor (N.lxor (shlw r0lo 63) (shlw r0lo 62)) (shlw r0lo 57)) in
+  let r0hi := N.lxor (snd r0) (N.lxor (N.lxor (shlw r0lo 63) (shlw r0lo 62)) (shlw r0lo 57)) in
   (* 1 *)
-  let r1lo := N.lxor r1lo r0lo in
-  let r1hi := N.lxor r1hi r0hi in
+  let r1lo := N.lxor (fst r1) r0lo in
+  let r1hi := N.lxor (snd r1) r0hi in
   (* x^-1 *)
   let r1lo := N.lxor r1lo (N.shiftr r0lo 1) in
   let r1lo := N.lxor r1lo (shlw r0hi 63) in
@@ -87,6 +90,9 @@ Definition polyvalDot (a b : fe) : fe :=
   let r1lo := N.lxor r1lo (shlw r0hi 57) in
   let r1hi := N.lxor r1hi (N.shiftr r0hi 7) in
   (r1lo, r1hi).
+
+Definition polyvalDot (a b : fe) : fe :=
+  let r := pv_karatsuba a b in pv_reduce (fst r) (snd r).
 
 (* binary.LittleEndian.Uint64 of the two halves of a 16-byte block *)
 Definition fe_of_block (b : bytes) : fe := (le_val (firstn 8 b), le_val (firstn 8 (skipn 8 b))).
